@@ -150,6 +150,9 @@ def _get_reference_residue(residue, force_field):
     if 'mutation' in residue:
         for node_idx in reference_block:
             reference_block.nodes[node_idx]['mutation'] = mutation
+            # Atoms contributed by modifications carry no residue name of
+            # their own; the whole residue takes the name of the new block.
+            reference_block.nodes[node_idx]['resname'] = resname
 
     return reference_block
 
